@@ -395,8 +395,32 @@ func ruleRecParserDepth(c *Ctx, r *R) {
 			}
 		}
 	}
-	// a depth guard: field = field + 1 and a comparison of that field, in the same function
+	// a depth guard: field = field + 1 and a comparison of that field, in the same function; or an integer parameter that
+	// is compared with a bound and passed on incremented in the recursive call
 	hasGuard := func(fn *ssa.Function) bool {
+		for _, prm := range fn.Params {
+			if b, ok := prm.Type().Underlying().(*types.Basic); !ok || b.Info()&types.IsInteger == 0 {
+				continue
+			}
+			compared, passedOn := false, false
+			for _, ref := range *prm.Referrers() {
+				if bo, ok := ref.(*ssa.BinOp); ok {
+					switch bo.Op {
+					case token.GTR, token.GEQ, token.LSS, token.LEQ:
+						compared = true
+					case token.ADD:
+						for _, r2 := range *bo.Referrers() {
+							if ci, ok := r2.(ssa.CallInstruction); ok && ci.Common().StaticCallee() == fn {
+								passedOn = true
+							}
+						}
+					}
+				}
+			}
+			if compared && passedOn {
+				return true
+			}
+		}
 		for _, g := range withAnon(fn) {
 			counted := map[*types.Var]bool{}
 			for _, b := range g.Blocks {
